@@ -32,7 +32,7 @@ CONSTANTS
 RING_INV = "INVARIANTS WeightInv SlotInv FillInv RingInv CycleInv BoundsInv\nPROPERTY Terminates"
 CFG_INV = "INVARIANTS WeightInv WeighInv BoundsInv\nVIEW View\nCHECK_DEADLOCK FALSE"
 GEN = "INVARIANTS WeightInv WeighInv BoundsInv\nVIEW View\nCHECK_DEADLOCK FALSE"
-GEN_ALL = "INVARIANTS WeightInv WeighInv DelInv BoundsInv\nCHECK_DEADLOCK FALSE"     # every script is a case
+GEN_ALL = "INVARIANTS WeightInv WeighInv DelInv ReAddInv BoundsInv\nCHECK_DEADLOCK FALSE"     # every script is a case
 RR_CFG = """SPECIFICATION GenSpec
 CONSTANTS
   Rings <- MCRings
@@ -73,6 +73,7 @@ def run(ctx):
         "round robin is observed through behaviour only: two ring lengths of consecutive lookups from a seed-chosen cursor position; the first ring length and a later window must each hit target i exactly as often as it occupies the ring, and lookup j and j+len(ring) must agree; the ring share of a target is accepted when it is exact (count/len = weight) or within the slot bounds floor(10^4 w)-1 .. ceil(10^4 w), at least one slot iff w > 0",
         "`route weight` with w <= 0 removes the fixed weight (documented: 'w <= 0 means no fixed weighting'); the expected split is that of the configuration after the LAST command of the script (scripts with weight > 0 then weight 0 / negative are cases of their own)",
         "histories: after up to 2 `route add` lines any 2 (thorough 3) further commands out of route add / route del <svc> <src> / route weight (weights {dyn, 50 %, 100 %}, 2 services) - every script is a case; the expected weights, ring shares and cycles are those of the targets the route has at the end, whatever state earlier commands left behind",
+        "re-announcements: in histories of up to 2 (thorough 3) commands after up to 2 `route add` lines an instance the route has (same service, URL, tags) is added again with any weight of {dyn, 50 %, 100 %} (thorough also: 2 commands over {dyn, 25 %, 50 %, 100 %}, and re-announcements / `route weight` over tags {none, t1}); C04 accepts both sets of targets a re-announcement may leave (a further entry, as the route language says; or the last weight replacing the old one) and holds the route to the exact split of the fixed weights of the targets it then has - which of the two it is, is C05's claim",
         "several routes in one table (same path on different hosts, ':port' routes): lookups are interleaved following every schedule of up to 4 (thorough 5) steps over 3 routes, repeated until every route has seen two ring lengths; each route's own consecutive lookups must form exact cycles and be periodic with its ring length",
         "long histories: the cursor is a natural number (WeightsRR!PeriodicAtAnyCount); an OPTIONAL probe positions the real counter (uint64 field 'total' of Route, found by reflection; skipped and counted when absent) a few lookups below 2^32, 2^32+2^31 and 2^63 and requires the next three ring lengths of lookups to form exact cycles and be periodic; the wrap of the 64-bit counter itself (2^64 lookups) is outside the claim",
         "listener wiring: proxy.strategy=rr (non-default), listeners of kind http, tcp, tcp+sni and https+tcp+sni started by main.startServers, three routes per kind with 2, 4 and 3 targets without fixed weight; one connection = one lookup (WeightsRR!Connect), every ring length of consecutive connections of a route must reach every target exactly once; https (TLS-terminating), grpc and tcp-dynamic listeners, weighted rings through the listeners and strategy rnd are not driven through the wiring",
@@ -117,9 +118,19 @@ def run(ctx):
                  cmd_cfg("GenSpec", 2, 2, "MCWUSmall", "MCWCReset", GEN_ALL, tags="MCTags2")))
     # histories of add / del / weight on one route (<=2 targets first, then <=2 (thorough 3) further
     # commands of any kind): the split is a function of the targets the route has at the end
-    gens.append(("histories of add/del/weight, every script",
-                 cmd_cfg("GenSpec", 3, ctx.pick(2, 3), "MCWUHist", "MCWCHist", GEN_ALL, tags="MCTags1", ops="MCOpsAll", init=2)))
+    # (generated by the re-announcement universe below, which contains these scripts)
+    # the same histories in which, in addition, an instance (service, URL, tags) is announced again with another weight - fixed -> fixed,
+    # dynamic -> fixed, fixed -> dynamic - between / after add, del and weight commands: the split
+    # is the one the fixed weights of the targets the route has afterwards prescribe (Weights!DoReAdd)
+    gens.append(("histories with re-announced instances, every script",
+                 cmd_cfg("GenSpec", 3, 2, "MCWUHist", "MCWCHist", GEN_ALL, tags="MCTags1", ops="MCOpsReAdd", init=2)))
     if ctx.thorough:
+        gens.append(("histories with re-announced instances, 4 weights",
+                     cmd_cfg("GenSpec", 3, 2, "MCWUReAdd", "MCWCHist", GEN_ALL, tags="MCTags1", ops="MCOpsReAdd", init=2)))
+        gens.append(("histories with re-announced instances, every script of <=3 commands",
+                     cmd_cfg("GenSpec", 3, 3, "MCWUHist", "MCWCHist", GEN_ALL, tags="MCTags1", ops="MCOpsReAdd", init=2)))
+        gens.append(("re-announcements and route weight over tags",
+                     cmd_cfg("GenSpec", 3, 2, "MCWUReAdd", "MCWCHist", GEN_ALL, tags="MCTags2", ops="MCOpsReAddOnly", init=2)))
         gens.append(("route weight resets, 3 targets", cmd_cfg("GenSpec", 3, 2, "MCWUSmall", "MCWCReset", GEN, tags="MCTags2")))
         gens.append(("route weight, 2 commands", cmd_cfg("GenSpec", 2, 2, "MCWUSmall", "MCWCSmall", GEN)))
         gens.append(("route weight, 4 targets", cmd_cfg("GenSpec", 4, 1, "MCWUSmall", "MCWCSmall", GEN, tags="MCTags2")))
@@ -142,7 +153,12 @@ def run(ctx):
     ctx.log("large-count probe (cursor positioned below 2^32, 2^32+2^31, 2^63 by reflection): %d routes probed, %d skipped (counter field not found)"
             % (s["large_count_probes"], s["large_count_skipped"]))
     ctx.cover("large-count", evaluations=0, probes=s["large_count_probes"], skipped=s["large_count_skipped"])
-    ctx.log("histories with add / del after the first adds: %d" % s["histories"])
+    ctx.log("histories with add / del after the first adds: %d; with an instance announced again: %d (%d routes held to the last-weight-wins reading)"
+            % (s["histories"], s["reannounced"], s["last_wins"]))
+    ctx.cover("reannounced", evaluations=s["reannounced"], last_wins=s["last_wins"])
+    if s["reannounced"] == 0:
+        ctx.inconclusive("C04: no re-announced instance was replayed")
+        return
     if s["cases"] == 0 or s["picks"] == 0 or s["rnd_picks"] == 0 or s["via_weight_cmd"] == 0 or s["reset_last"] == 0 or s["histories"] == 0:
         ctx.inconclusive("C04: vacuous replay (%s)" % json.dumps(s)[:300])
         return
